@@ -1,10 +1,38 @@
 #!/bin/bash
 # run.sh <ID> [quick|thorough] — rebuild the harness against /repo's working tree (hooks on) and run one check.
 # Exit code: 0 held, 1 violation (VIOLATION line printed), 2 inconclusive / harness error.
+#
+# The cases of a check run concurrently in one process. If that process dies (a Go runtime
+# fatal error such as "concurrent map writes" cannot be recovered in-process) no verdict was
+# reached: the check is run again with one case at a time (VERIF_JOBS=1), and that run decides.
+# If the sequential run dies too and the crashing goroutine is inside the repository's code,
+# the death itself is the violation (an input neither accepted nor rejected).
 export GOFLAGS=-mod=mod GOPROXY=off GOSUMDB=off GOTOOLCHAIN=local
 cd "$(dirname "$0")"
 ROOT=$(pwd)
-mkdir -p bin
+ID=$1; TIER=${2:-quick}
+mkdir -p bin scratch
 ( cd harness && go build -tags verif -o "$ROOT/bin/vcheck" ./cmd/vcheck ) || { echo "INCONCLUSIVE build failed"; exit 2; }
-"$ROOT/bin/vcheck" run "$@" 2>&1 | grep -v "^The USE_BIT_DECOMPOSITION\|^ignoring uninitialized slice"
-exit ${PIPESTATUS[0]}
+LOG="$ROOT/scratch/run_${ID}_${TIER}_$$.log"
+runit() { "$ROOT/bin/vcheck" run "$ID" "$TIER" 2>&1 | grep -v "^The USE_BIT_DECOMPOSITION\|^ignoring uninitialized slice" | tee "$LOG"; return ${PIPESTATUS[0]}; }
+runit; code=$?
+if ! grep -q '^SUMMARY\|^INCONCLUSIVE' "$LOG"; then
+  RD="${VERIF_ROOT:-$ROOT}/replays/$ID"; mkdir -p "$RD"
+  tail -c 200000 "$LOG" > "$RD/crash_concurrent.log"
+  echo "NOTE property=$ID check process ended abnormally (exit $code) before a verdict; running it again one case at a time (log: $RD/crash_concurrent.log)"
+  export VERIF_JOBS=1
+  runit; code=$?
+  if ! grep -q '^SUMMARY\|^INCONCLUSIVE' "$LOG"; then
+    tail -c 200000 "$LOG" > "$RD/crash_sequential.log"
+    # first goroutine block of the crash report: is the repository's code on it?
+    if awk '/^goroutine [0-9]+ \[/{n++} n==1' "$LOG" | grep -q "example-near-light-client/"; then
+      echo "VIOLATION property=$ID replay=$RD/crash_sequential.log"
+      echo "  key=process_died_in_repository_code (sequential execution, exit $code)"
+      rm -f "$LOG"; exit 1
+    fi
+    echo "INCONCLUSIVE property=$ID check process ended abnormally twice (exit $code), see $RD/crash_sequential.log"
+    rm -f "$LOG"; exit 2
+  fi
+fi
+rm -f "$LOG"
+exit $code
